@@ -269,42 +269,57 @@ func marshalWrites(c *Ctx, m *ssa.Function) []bufWrite {
 		if !ok {
 			return
 		}
-		switch calleeName(&call.Call) {
+		// a strings.Builder is written to exactly like a bytes.Buffer
+		name := strings.Replace(calleeName(&call.Call), "(*strings.Builder).", "(*bytes.Buffer).", 1)
+		switch name {
 		case "(*bytes.Buffer).WriteString":
-			a := call.Call.Args[1]
-			if s, ok := constString(a); ok {
-				out = append(out, bufWrite{I: i, Text: s, Const: true})
-				return
-			}
-			if sp, ok := a.(*ssa.Call); ok && calleeName(&sp.Call) == "fmt.Sprintf" {
-				f, _ := constString(sp.Call.Args[0])
-				w := bufWrite{I: i, Text: f}
-				for _, e := range variadicElems(sp.Call.Args[1]) {
-					w.Vals = append(w.Vals, unwrapIface(e))
-					w.Args = append(w.Args, c.Expr(e))
-					w.Types = append(w.Types, typeName(unwrapIface(e).Type()))
-				}
-				out = append(out, w)
-				return
-			}
-			// a decimal number through strconv is the same text as %d
-			if sp, ok := a.(*ssa.Call); ok {
-				switch calleeName(&sp.Call) {
-				case "strconv.Itoa":
-					out = append(out, bufWrite{I: i, Text: "%d", Vals: []ssa.Value{sp.Call.Args[0]}, Args: []string{c.Expr(sp.Call.Args[0])}, Types: []string{typeName(sp.Call.Args[0].Type())}})
+			// the string written, piece by piece: a concatenation is the sequence of its operands
+			var pieces func(a ssa.Value, depth int)
+			pieces = func(a ssa.Value, depth int) {
+				if s, ok := constString(a); ok {
+					out = append(out, bufWrite{I: i, Text: s, Const: true})
 					return
-				case "strconv.FormatUint", "strconv.FormatInt":
-					if base, ok := constInt(sp.Call.Args[1]); ok && base == 10 {
-						v := sp.Call.Args[0]
-						if cv, ok := v.(*ssa.Convert); ok && convPreserves(cv) {
-							v = cv.X
-						}
-						out = append(out, bufWrite{I: i, Text: "%d", Vals: []ssa.Value{v}, Args: []string{c.Expr(v)}, Types: []string{typeName(v.Type())}})
+				}
+				if bo, ok := a.(*ssa.BinOp); ok && bo.Op == token.ADD && isStringT(bo.Type()) && depth < 16 {
+					pieces(bo.X, depth+1)
+					pieces(bo.Y, depth+1)
+					return
+				}
+				if sp, ok := a.(*ssa.Call); ok && calleeName(&sp.Call) == "fmt.Sprintf" {
+					f, _ := constString(sp.Call.Args[0])
+					w := bufWrite{I: i, Text: f}
+					for _, e := range variadicElems(sp.Call.Args[1]) {
+						w.Vals = append(w.Vals, unwrapIface(e))
+						w.Args = append(w.Args, c.Expr(e))
+						w.Types = append(w.Types, typeName(unwrapIface(e).Type()))
+					}
+					out = append(out, w)
+					return
+				}
+				// a decimal number through strconv is the same text as %d
+				if sp, ok := a.(*ssa.Call); ok {
+					switch calleeName(&sp.Call) {
+					case "strconv.Itoa":
+						out = append(out, bufWrite{I: i, Text: "%d", Vals: []ssa.Value{sp.Call.Args[0]}, Args: []string{c.Expr(sp.Call.Args[0])}, Types: []string{typeName(sp.Call.Args[0].Type())}})
 						return
+					case "strconv.FormatUint", "strconv.FormatInt":
+						if base, ok := constInt(sp.Call.Args[1]); ok && base == 10 {
+							v := sp.Call.Args[0]
+							for {
+								if cv, ok := v.(*ssa.Convert); ok && convPreserves(cv) {
+									v = cv.X
+									continue
+								}
+								break
+							}
+							out = append(out, bufWrite{I: i, Text: "%d", Vals: []ssa.Value{v}, Args: []string{c.Expr(v)}, Types: []string{typeName(v.Type())}})
+							return
+						}
 					}
 				}
+				out = append(out, bufWrite{I: i, Text: "?" + c.Expr(a)})
 			}
-			out = append(out, bufWrite{I: i, Text: "?" + c.Expr(a)})
+			pieces(call.Call.Args[1], 0)
 		case "fmt.Fprintf":
 			// fmt.Fprintf(&buf, format, args...) is the same write as buf.WriteString(fmt.Sprintf(format, args...))
 			if c.Expr(call.Call.Args[0]) != "&buf" {
@@ -341,6 +356,11 @@ func c03r4(r *R) {
 	m := c.Method("pkg/metadata", "HTTP2FingerprintingFrames", "Marshal")
 	r.need(m != nil, "Marshal not found")
 	ws := marshalWrites(c, m)
+	if os.Getenv("FPCHECK_DEBUG_C03") != "" {
+		for _, w := range ws {
+			println("C03 write:", w.Text, "|", strings.Join(w.Args, ","), "|", w.Byte, w.Const)
+		}
+	}
 	o := r.Ob("C03.R4", "four-parts:"+funcName(m)).At(m.Pos())
 	// every write, as atoms (see outlang.go)
 	atomsOf := map[ssa.Instruction][]olAtom{}
@@ -399,7 +419,7 @@ func c03r4(r *R) {
 		for _, a := range as {
 			o.AtI(w.I).Check(!strings.HasPrefix(a.Sym, "?fmt"), "format %q uses something else than %%d / %%02d: %s", w.Text, a.Sym)
 		}
-		atomsOf[w.I] = as
+		atomsOf[w.I] = append(atomsOf[w.I], as...) // the pieces of one concatenated write follow each other
 		for _, a := range as {
 			if len(a.Alts) == 0 {
 				atoms = append(atoms, a)
@@ -570,7 +590,7 @@ func c03r4(r *R) {
 	// result is the buffer's content
 	eachInstr(m, func(i ssa.Instruction) {
 		if ret, ok := i.(*ssa.Return); ok && i.Block() != m.Recover {
-			o.Check(retExpr(c, ret, 0) == "(*bytes.Buffer).String(&buf)", "Marshal returns %s", retExpr(c, ret, 0))
+			o.Check(retExpr(c, ret, 0) == "(*bytes.Buffer).String(&buf)" || retExpr(c, ret, 0) == "(*strings.Builder).String(&buf)", "Marshal returns %s", retExpr(c, ret, 0))
 		}
 	})
 	// total number of writes frozen as vacuity guard
